@@ -508,6 +508,27 @@ func checkLagrange(c *Ctx, r *Run) {
 						}
 					}
 				}
+				// (summed inside a helper: the list it ranges over is an argument of the helper's call, taken from PartyIDs())
+				if call.Parent() != sf {
+					allInstrs(sf, func(in ssa.Instruction) {
+						hc, isCall := in.(*ssa.Call)
+						if !isCall || hc.Call.StaticCallee() != call.Parent() {
+							return
+						}
+						for _, a := range hc.Call.Args {
+							if dependsOn(a, func(x ssa.Value) bool {
+								c4, ok := x.(*ssa.Call)
+								if !ok {
+									return false
+								}
+								o4 := calleeObj(c4)
+								return o4 != nil && o4.Name() == "PartyIDs"
+							}) {
+								overParties = true
+							}
+						}
+					})
+				}
 				// the loop ranges over helper.PartyIDs()
 				for _, b := range sf.Blocks {
 					for _, in := range b.Instrs {
@@ -543,9 +564,21 @@ func checkFromHash(c *Ctx, r *Run) {
 	name := c.FuncName(fn)
 	r.Analysed(name)
 	var setBytes *ssa.Call
+	entry := fn
 	for _, call := range callsNamed(fn, "SetBytes") {
 		setBytes = call
 	}
+	if setBytes == nil {
+		// the truncate-and-shift half may live in a helper of the package (`truncateHash(h, orderBits)`): the shape rules
+		// are then decided on that helper, the call-site rules below stay on FromHash itself
+		for _, g := range regionOf(fn)[1:] {
+			for _, call := range callsNamed(g, "SetBytes") {
+				setBytes = call
+				fn = g
+			}
+		}
+	}
+	defer func() { fn = entry }()
 	if setBytes == nil {
 		r.Fail("FH-1", name+"|convert", c.Pos(fn.Pos()), "the digest is converted with SetBytes", "no SetBytes call found")
 		return
@@ -622,7 +655,7 @@ func checkFromHash(c *Ctx, r *Run) {
 		n := 0
 		msgOK := false
 		allInstrs(f, func(in ssa.Instruction) {
-			if call, ok := in.(*ssa.Call); ok && call.Call.StaticCallee() == fn {
+			if call, ok := in.(*ssa.Call); ok && call.Call.StaticCallee() == entry {
 				n++
 				for _, l := range paramFields(f, call.Call.Args[1]) {
 					if sessionMsgFields[l] || l == "[]byte" {
